@@ -235,7 +235,9 @@ def gen_behaviours(run, module, cfg_name, cfg_text, simulate=None, depth=None, t
     """Run a generator spec; -> de-duplicated list of behaviours (parsed JSON)."""
     with open(os.path.join(run.spec, cfg_name), "w") as f:
         f.write(cfg_text)
-    r = run.tlc(module, cfg_name, workers=workers, simulate=simulate, depth=depth, name="gen:" + cfg_name, timeout=timeout)
+    # simulation is seeded from the run's seed, so that a run is reproducible from VERIF_SEED
+    extra = ["-seed", str(run.seed)] if simulate else []
+    r = run.tlc(module, cfg_name, workers=workers, simulate=simulate, depth=depth, name="gen:" + cfg_name, timeout=timeout, extra=extra)
     seen = set()
     res = []
     for s in r.printed(tag):
